@@ -955,6 +955,18 @@ func stackJSON(r *core.Run) {
 						good = false
 					}
 				}
+				if !good && len(vals) == 1 {
+					// the pushed state is a field of a row of a constant per-byte table (start := containerStart[c]; start.ok
+					// && …; push(start.state)): the values of that field over the rows the guards at the push allow
+					if ks, okT := tableFieldValues(r, vals[0], op.in); okT && len(ks) > 0 {
+						good = true
+						for _, k := range ks {
+							if k == valueState {
+								good = false
+							}
+						}
+					}
+				}
 				r.Check(good, fmt.Sprintf("json push #%d is a container state", npush), op.in.Pos(), "", "a pushed state is not a constant container state (the bottom ValueState must stay unique)")
 			case "pop":
 				npop++
@@ -981,6 +993,175 @@ func stackJSON(r *core.Run) {
 		}
 	}
 	r.Check(okCtor, "json.NewParser starts with [ValueState]", ctor.Pos(), "", "constructor does not install the bottom ValueState")
+}
+
+// tableFieldValues: v is row.f for `row := table[i]` with table a package-level array/slice literal of struct rows
+// (read-only, consteval.go): the integer values of field f over the rows that satisfy every guard at `at` that
+// compares another field of the same row with a constant (row.ok, row.kind == K). Unlisted rows are zero rows.
+func tableFieldValues(r *core.Run, v ssa.Value, at ssa.Instruction) ([]int64, bool) {
+	// rowField: v is row.f — a Field of the loaded row, or a load of &local.f where the local holds the row
+	// (its only store is `local = table[i]`)
+	rowField := func(v ssa.Value) (*ssa.UnOp, int, bool) {
+		switch x := v.(type) {
+		case *ssa.Field:
+			if rw, ok := x.X.(*ssa.UnOp); ok && rw.Op == token.MUL {
+				return rw, x.Field, true
+			}
+		case *ssa.UnOp:
+			if x.Op != token.MUL {
+				return nil, 0, false
+			}
+			fa, ok := x.X.(*ssa.FieldAddr)
+			if !ok {
+				return nil, 0, false
+			}
+			al, ok := fa.X.(*ssa.Alloc)
+			if !ok || al.Referrers() == nil {
+				return nil, 0, false
+			}
+			var rw *ssa.UnOp
+			for _, ref := range *al.Referrers() {
+				switch y := ref.(type) {
+				case *ssa.Store:
+					if y.Addr != ssa.Value(al) || rw != nil {
+						return nil, 0, false
+					}
+					rw, _ = y.Val.(*ssa.UnOp)
+					if rw == nil || rw.Op != token.MUL {
+						return nil, 0, false
+					}
+				case *ssa.FieldAddr:
+					if y.Referrers() != nil {
+						for _, r2 := range *y.Referrers() {
+							if ld, isLd := r2.(*ssa.UnOp); !isLd || ld.Op != token.MUL {
+								if _, isDbg := r2.(*ssa.DebugRef); !isDbg {
+									return nil, 0, false // a field of the copy is assigned
+								}
+							}
+						}
+					}
+				case *ssa.DebugRef, *ssa.UnOp:
+				default:
+					return nil, 0, false
+				}
+			}
+			if rw != nil {
+				return rw, fa.Field, true
+			}
+		}
+		return nil, 0, false
+	}
+	row, fldIdx, ok := rowField(v)
+	if !ok {
+		return nil, false
+	}
+	ia, ok := row.X.(*ssa.IndexAddr)
+	if !ok {
+		return nil, false
+	}
+	g, ok := ia.X.(*ssa.Global)
+	if !ok || g.Pkg == nil || !core.InModule(g.Pkg.Pkg) {
+		return nil, false
+	}
+	arr, ok := derefType(g.Type()).Underlying().(*types.Array)
+	if !ok {
+		return nil, false
+	}
+	rowT, ok := arr.Elem().Underlying().(*types.Struct)
+	if !ok {
+		return nil, false
+	}
+	pk := r.Prog.ByPath[g.Pkg.Pkg.Path()]
+	if pk == nil {
+		return nil, false
+	}
+	l, err := evalGlobal(pk, g.Name())
+	if err != nil || l == nil || l.Elems == nil {
+		return nil, false
+	}
+	cell := func(rw *Lit, f int) (int64, bool) { // integer / boolean value of field f of a row (nil row or cell: zero)
+		if rw == nil || f >= len(rw.Elems) || rw.Elems[f] == nil {
+			return 0, true
+		}
+		c := rw.Elems[f].Const
+		if c == nil {
+			return 0, false
+		}
+		switch c.Kind() {
+		case constant.Bool:
+			if constant.BoolVal(c) {
+				return 1, true
+			}
+			return 0, true
+		case constant.Int:
+			return constant.Int64Val(c)
+		}
+		return 0, false
+	}
+	// guards on sibling fields of the same row value
+	type want struct {
+		f  int
+		op token.Token
+		k  int64
+	}
+	var wants []want
+	for _, a := range guardsAt(at.Block()) {
+		if a.call != nil || a.x == nil || a.y == nil {
+			continue
+		}
+		for _, pr := range [][2]ssa.Value{{a.x, a.y}, {a.y, a.x}} {
+			srow, sfield, isF := rowField(pr[0])
+			k, isK := pr[1].(*ssa.Const)
+			if !isF || !isK || srow != row || k.Value == nil {
+				continue
+			}
+			var kv int64
+			switch k.Value.Kind() {
+			case constant.Bool:
+				if constant.BoolVal(k.Value) {
+					kv = 1
+				}
+			case constant.Int:
+				kv = k.Int64()
+			default:
+				continue
+			}
+			if a.op == token.EQL || a.op == token.NEQ {
+				wants = append(wants, want{sfield, a.op, kv})
+			}
+		}
+	}
+	rows := append([]*Lit{}, l.Elems...)
+	if int64(len(rows)) < arr.Len() || len(rows) == 0 {
+		rows = append(rows, nil) // the rows the literal does not list
+	}
+	_ = rowT
+	seen := map[int64]bool{}
+	var out []int64
+	for _, rw := range rows {
+		okRow := true
+		for _, w := range wants {
+			cv, known := cell(rw, w.f)
+			if !known {
+				return nil, false
+			}
+			if (cv == w.k) != (w.op == token.EQL) {
+				okRow = false
+			}
+		}
+		if !okRow {
+			continue
+		}
+		cv, known := cell(rw, fldIdx)
+		if !known {
+			return nil, false
+		}
+		if !seen[cv] {
+			seen[cv] = true
+			out = append(out, cv)
+		}
+	}
+	return out, true
 }
 
 func isTopLoad(v ssa.Value) bool {
